@@ -151,7 +151,7 @@ Proof.
     { unfold div_fault. rewrite Hb0. cbn [orb]. destruct sg; [|reflexivity].
       destruct (a =? lo Signed w) eqn:Ha; [|reflexivity]. destruct (b =? -1) eqn:Hb; [|reflexivity].
       exfalso. apply Hn. apply Z.eqb_eq in Ha, Hb. unfold rem_min_neg1. auto. }
-    rewrite Hf. reflexivity.
+    destruct st; [rewrite Hf|]; reflexivity.
 Qed.
 
 Example impl_exact_hyps_sat : exists sg w op a b x, 0 < w /\ exact_bin op a b = Some x /\
@@ -248,12 +248,13 @@ Example inside_class_sat :
   in_range Signed 8 127 = true /\ in_range Signed 8 1 = true /\ unrepresentable_or_div0 Signed 8 Add 127 1.
 Proof. vm_compute. auto. Qed.
 
-(* A checked implementation meets the spec everywhere except MIN % -1 (checked_rem gives None) *)
+(* The checked implementation (the current source) meets the spec EVERYWHERE: every mode, width,
+   signedness, operator and operand pair -- MIN % -1 included (rem_checked gives 0) *)
 Lemma checked_style_meets_spec : forall m sg w op a b, 0 < w ->
-  in_range sg w a = true -> in_range sg w b = true -> ~ rem_min_neg1 sg w op a b ->
+  in_range sg w a = true -> in_range sg w b = true ->
   impl_bin Checked m sg w op a b = spec_bin sg w op a b.
 Proof.
-  intros m sg w op a b Hw Ha Hb Hn. unfold spec_bin, spec_of.
+  intros m sg w op a b Hw Ha Hb. unfold spec_bin, spec_of.
   destruct op; cbn [exact_bin impl_bin arith_result]; try reflexivity.
   - destruct (b =? 0) eqn:Hb0; [unfold div_fault; rewrite Hb0; reflexivity|].
     destruct (div_fault sg w a b) eqn:Hf.
@@ -265,17 +266,21 @@ Proof.
       { apply in_range_false_iff. unfold lo, hi. lia. }
       rewrite Hr. reflexivity.
     + rewrite (quot_in_range sg w a b Hw Ha Hb Hf). reflexivity.
-  - destruct (b =? 0) eqn:Hb0; [unfold div_fault; rewrite Hb0; reflexivity|].
-    assert (Hf : div_fault sg w a b = false).
-    { unfold div_fault. rewrite Hb0. cbn [orb]. destruct sg; [|reflexivity].
-      destruct (a =? lo Signed w) eqn:Ha'; [|reflexivity]. destruct (b =? -1) eqn:Hb'; [|reflexivity].
-      exfalso. apply Hn. apply Z.eqb_eq in Ha', Hb'. unfold rem_min_neg1. auto. }
-    rewrite Hf. apply Z.eqb_neq in Hb0. rewrite (rem_in_range sg w a b Hw Ha Hb0). reflexivity.
+  - destruct (b =? 0) eqn:Hb0; [reflexivity|].
+    apply Z.eqb_neq in Hb0. rewrite (rem_in_range sg w a b Hw Ha Hb0). reflexivity.
 Qed.
 
-Example checked_style_sat :
-  in_range Unsigned 16 65535 = true /\ in_range Unsigned 16 2 = true /\ ~ rem_min_neg1 Unsigned 16 Mul 65535 2.
-Proof. repeat split; try reflexivity. intros [H _]. discriminate H. Qed.
+Lemma checked_neg_meets_spec : forall m w a, impl_neg Checked m w a = spec_neg w a.
+Proof. intros m w a. reflexivity. Qed.
+
+Lemma checked_min_rem_neg1 : forall m w, 0 < w -> impl_bin Checked m Signed w Rem (lo Signed w) (-1) = Ok 0.
+Proof.
+  intros m w Hw. cbn [impl_bin]. change (-1 =? 0) with false. cbv iota.
+  replace (-1) with (- (1)) by reflexivity. rewrite Z.rem_opp_r, Z.rem_1_r by lia. reflexivity.
+Qed.
+
+Example checked_style_sat : in_range Unsigned 16 65535 = true /\ in_range Unsigned 16 2 = true.
+Proof. split; reflexivity. Qed.
 
 (* the boolean class test used by the driver is the class *)
 Lemma known_class_b_spec : forall sg w op a b, known_class_b sg w op a b = true <-> KnownClass_C12 sg w op a b.
